@@ -4,7 +4,7 @@ From RecordUpdate Require Import RecordSet.
 From SasLexer Require Import Gen.TokenType Gen.ErrorKind Gen.Channel Gen.Unicode Model.Base Model.Core
      Model.Helpers Model.Numeric Model.Lexer1 Model.Lexer2 Model.Lexer3 Spec.RefLex
      Proofs.Generic Proofs.LexGeneric Proofs.Bom Proofs.SemiProgram Proofs.SemiCompose Proofs.RefLexProofs
-     Proofs.HexString Proofs.OcBase Proofs.OcSym Proofs.OcScan Proofs.OcNum Proofs.OcIdent Proofs.OcData Proofs.OcStr.
+     Proofs.HexString Proofs.OcBase Proofs.OcSym Proofs.OcScan Proofs.OcNum Proofs.OcIdent Proofs.OcData Proofs.OcStr Proofs.OcWhole.
 Import ListNotations RecordSetNotations.
 Open Scope N_scope.
 
@@ -281,4 +281,102 @@ Proof.
                  subst. split; [reflexivity|]. split; [exact HM|]. split; [exact Hsrc|]. split; [exists (y :: r'); reflexivity|exact Hlis].
         -- unfold advance_, ret. cbn [bindP do run]. rewrite (ex_advance X x r (mq_rest _ _ _ _ _ _ HM)). cbn [run bindP do].
            apply Hone; [apply MidQ_adv; exact HM|exact Hlis].
+Qed.
+
+
+(** ** the second iteration: [dispatch_mode_str_expr] on the first character after the opening quote *)
+Lemma run_str_text F X :
+  run false (lex_str_expr_text F) X =
+  run false (str_expr_text_loop F (w_litlen (s_buf X)) (w_litlen (s_buf X)) (s_ct_byte X)) X.
+Proof. unfold lex_str_expr_text, get. cbn [bindP do run]. rewrite ex_get. reflexivity. Qed.
+
+Lemma dq_entry F msep SB ms c' r' P :
+  s_modes SB = MStringExpr true :: ms -> lines_pos SB ->
+  c_rest (s_cur SB) = c' :: r' -> c_rem (s_cur SB) = blen (c' :: r') ->
+  macro_free (c' :: r') = true -> last_is_start SB = true -> (List.length (c' :: r') < F)%nat ->
+  s_srclen SB = blen (s_src SB) -> s_src SB = P ++ c' :: r' ->
+  let s0 := st_start SB in
+  let l := c' :: r' in
+  let R := st_dq (S (List.length l)) s0 l [] [] P 0 in
+  run false (lex_token F msep c') SB = run false (dq_tail (w_litlen (s_buf s0)) R) (q_st R) /\
+  MidQ s0 (q_st R) (q_ad R) [] [] (skipn_N (N.to_nat (q_k R)) l) /\
+  s_src s0 = q_P R ++ q_pend R ++ skipn_N (N.to_nat (q_k R)) l /\
+  (if q_closed R then exists rest'', skipn_N (N.to_nat (q_k R)) l = c_dquote :: rest'' else skipn_N (N.to_nat (q_k R)) l = []) /\
+  last_is_start (q_st R) = true.
+Proof.
+  intros Hm Hl Hr Hrem Hmf Hlis Hf Hlen Hsrc s0 l R.
+  assert (M0 : MidQ s0 s0 [] [] [] l).
+  { constructor; try reflexivity.
+    - cbn [blen]. rewrite N.add_0_r. reflexivity.
+    - exact Hr.
+    - exact Hrem.
+    - exact Hl. }
+  assert (Hlen0 : s_srclen s0 = blen (s_src s0)) by exact Hlen.
+  assert (Hsrc0 : s_src s0 = P ++ [] ++ l) by exact Hsrc.
+  assert (Hct : s_ct_byte s0 = blen P).
+  { change (s_ct_byte s0) with (cur_byte SB). unfold cur_byte. rewrite Hrem, Hlen, Hsrc, blen_app. fold l. lia. }
+  assert (Hlis0 : last_is_start s0 = true) by exact Hlis.
+  (* the text loop from the start of the token *)
+  pose proof (dq_run s0 Hlen0 (S (List.length l)) l s0 [] [] P 0 F (w_litlen (s_buf s0)) (s_ct_byte s0) []
+                ltac:(lia) Hf Hmf M0 Hsrc0 ltac:(cbn [blen]; lia) Hct Hlis0) as Htext.
+  cbv zeta in Htext. fold R in Htext. rewrite N.sub_0_r in Htext.
+  assert (Hstart : run false (lex_token F msep c') SB =
+            run false (if c' =? c_dquote then
+                         if peek_next (scrub s0) =? c_dquote then lex_str_expr_text F
+                         else if last_is_start (scrub s0) then lex_double_quoted_literal PNone
+                         else advance_ ;; t <- expr_end_type ;; emit t ;; Lexer1.pop_mode
+                       else if c' =? c_amp then b <- lex_macro_var_expr F ;; when (negb b) (lex_str_expr_text F)
+                       else if c' =? c_pct then
+                         if is_valid_unicode_sas_name_start (peek_next (scrub s0)) then lex_macro_identifier msep false
+                         else advance_ ;; lex_str_expr_text F
+                       else lex_str_expr_text F) s0).
+  { unfold lex_token. cbn [bindP do run]. rewrite (ex_mode _ (MStringExpr true) ms Hm). cbn [run].
+    unfold dispatch_mode_str_expr, assert_dbg, start_token, get. cbn [bindP do run].
+    rewrite ex_assert. cbn [run]. rewrite (ex_start_token _ Hl). cbn [run]. rewrite ex_get. cbn [run]. reflexivity. }
+  rewrite Hstart. clear Hstart.
+  destruct (c' =? c_dquote) eqn:Eq.
+  - apply N.eqb_eq in Eq. subst c'. unfold peek_next. change (c_rest (s_cur (scrub s0))) with (c_rest (s_cur SB)). rewrite Hr.
+    destruct r' as [|y r''].
+    + (* the empty literal at the end of the text *)
+      change (EOF_CHAR =? c_dquote) with false. cbv iota. change (last_is_start (scrub s0)) with (last_is_start SB). rewrite Hlis.
+      subst R l. cbn [st_dq List.length]. change (c_dquote =? c_amp) with false. change (c_dquote =? c_pct) with false.
+      change (c_dquote =? NL) with false. change (c_dquote =? c_dquote) with true. cbv iota.
+      cbn [q_st q_ad q_P q_closed q_k q_pend N.to_nat skipn_N].
+      split; [|split; [exact M0|split; [exact Hsrc0|split; [exists []; reflexivity|exact Hlis0]]]].
+      unfold dq_tail, resolve_string_literal_payload. cbn [q_ad q_closed blen]. rewrite N.add_0_r, N.eqb_refl. reflexivity.
+    + destruct (y =? c_dquote) eqn:Ey.
+      * rewrite run_str_text. exact Htext.
+      * change (last_is_start (scrub s0)) with (last_is_start SB). rewrite Hlis.
+        subst R l. cbn [st_dq List.length]. change (c_dquote =? c_amp) with false. change (c_dquote =? c_pct) with false.
+        change (c_dquote =? NL) with false. change (c_dquote =? c_dquote) with true. cbv iota. rewrite Ey.
+        cbn [q_st q_ad q_P q_closed q_k q_pend N.to_nat skipn_N].
+        split; [|split; [exact M0|split; [exact Hsrc0|split; [exists (y :: r''); reflexivity|exact Hlis0]]]].
+        unfold dq_tail, resolve_string_literal_payload. cbn [q_ad q_closed blen]. rewrite N.add_0_r, N.eqb_refl. reflexivity.
+  - destruct (c' =? c_amp) eqn:Ea.
+    + apply N.eqb_eq in Ea. subst c'.
+      unfold lex_macro_var_expr, assert_dbg, get. cbn [bindP do run]. rewrite ex_assert. cbn [run]. rewrite ex_get. cbn [run].
+      change (rest (scrub s0)) with (c_rest (s_cur SB)). rewrite Hr. rewrite (amp_run_not_macro r' Hmf). cbn [negb]. unfold ret, when. cbn [bindP run negb].
+      rewrite run_str_text. exact Htext.
+    + destruct (c' =? c_pct) eqn:Ep.
+      * apply N.eqb_eq in Ep. subst c'.
+        assert (Hnn : is_valid_unicode_sas_name_start (peek_next (scrub s0)) = false).
+        { unfold peek_next. change (c_rest (s_cur (scrub s0))) with (c_rest (s_cur SB)). rewrite Hr.
+          destruct r' as [|x r'']; [reflexivity|]. cbn [macro_free] in Hmf. replace (c_pct =? c_pct) with true in Hmf by reflexivity.
+          apply andb_true_iff in Hmf. destruct Hmf as [Hmf _]. apply negb_true_iff, orb_false_iff in Hmf. exact (proj2 Hmf). }
+        rewrite Hnn. unfold advance_, ret. cbn [bindP do run]. rewrite (ex_advance s0 c_pct r' Hr). cbn [run bindP do].
+        rewrite run_str_text.
+        pose proof (MidQ_adv _ _ _ _ _ _ _ M0) as M1.
+        assert (Hsrc1 : s_src s0 = P ++ ([] ++ [c_pct]) ++ r') by exact Hsrc.
+        pose proof (dq_run s0 Hlen0 (S (List.length r')) r' (st_adv s0 c_pct r') [] ([] ++ [c_pct]) P (0 + 1) F (w_litlen (s_buf s0)) (s_ct_byte s0) []
+                      ltac:(lia) ltac:(cbn [List.length] in Hf; lia) (macro_free_tail _ _ Hmf) M1 Hsrc1 ltac:(cbn [blen]; lia) Hct Hlis0) as Ht1.
+        cbv zeta in Ht1.
+        assert (ER : R = st_dq (S (List.length r')) (st_adv s0 c_pct r') r' [] ([] ++ [c_pct]) P (0 + 1)).
+        { subst R l. cbn [List.length]. remember (S (List.length r')) as mm. cbn [st_dq].
+          change (c_pct =? c_amp) with false. change (c_pct =? c_pct) with true. reflexivity. }
+        rewrite <- ER in Ht1.
+        pose proof (dq_k_mono (S (List.length r')) r' (st_adv s0 c_pct r') [] ([] ++ [c_pct]) P (0 + 1)) as Hk. rewrite <- ER in Hk.
+        replace (N.to_nat (q_k R)) with (S (N.to_nat (q_k R - (0 + 1)))) by lia. subst l. cbn [skipn_N].
+        change (w_litlen (s_buf (st_adv s0 c_pct r'))) with (w_litlen (s_buf s0)).
+        change (s_ct_byte (st_adv s0 c_pct r')) with (s_ct_byte s0). exact Ht1.
+      * rewrite run_str_text. exact Htext.
 Qed.
